@@ -171,7 +171,7 @@ func mutationTable(c *core.Ctx, ruleID string) {
 	// lock type: SharedLock iff HasLockedInShareMode
 	pShare := core.PTrue(core.IsCallNamed("HasLockedInShareMode"))
 	for _, r := range returnsOf(glt) {
-		cst, ok := r.Results[0].(*ssa.Const)
+		cst, ok := asConst(r.Results[0])
 		if !ok {
 			a.viol(fname(glt), r, "lock type is not a constant")
 			continue
